@@ -1,7 +1,8 @@
 (* Compare.v — SympyBackend.compare: expand the difference; equal iff it is 0,
    unequal iff it is a non-zero integer literal, otherwise ambiguous.
    `expand` is modelled by a polynomial normal form over Q whose atoms are
-   symbols and opaque (non-polynomial) subterms.  Definitions only. *)
+   symbols and opaque (non-polynomial) subterms.  Definitions only
+   (soundness: CompareFacts.v). *)
 From Coq Require Import List String QArith ZArith Bool Qreduction.
 From Bq Require Import Expr Routine.
 Import ListNotations.
@@ -17,9 +18,10 @@ Definition op_eqb (a b : op) : bool :=
 Definition bigop_eqb (a b : bigop) : bool :=
   match a, b with BSum, BSum | BProd, BProd => true | _, _ => false end.
 
+(* structural equality (numbers by numerator and denominator): true only on identical terms *)
 Fixpoint expr_eqb (a b : expr) : bool :=
   match a, b with
-  | ENum p, ENum q => Qeq_bool p q
+  | ENum p, ENum q => Z.eqb (Qnum p) (Qnum q) && Pos.eqb (Qden p) (Qden q)
   | ESym x, ESym y => String.eqb x y
   | EOp o xs, EOp p ys =>
       op_eqb o p &&
@@ -34,23 +36,29 @@ Fixpoint expr_eqb (a b : expr) : bool :=
   | _, _ => false
   end.
 
-(* monomial: atoms with integer powers (unordered, no atom twice, no zero power) *)
-Definition mono := list (expr * Z).
+(* monomial: atoms with natural powers;  polynomial: monomials with rational coefficients *)
+Definition mono := list (expr * nat).
 Definition poly := list (mono * Q).
 
-Fixpoint mono_add_atom (a : expr) (k : Z) (m : mono) : mono :=
+Fixpoint mono_add_atom (a : expr) (k : nat) (m : mono) : mono :=
   match m with
-  | [] => if Z.eqb k 0 then [] else [(a, k)]
-  | (b, j) :: m' =>
-      if expr_eqb a b then (if Z.eqb (j + k) 0 then m' else (b, (j + k)%Z) :: m')
-      else (b, j) :: mono_add_atom a k m'
+  | [] => [(a, k)]
+  | (b, j) :: m' => if expr_eqb a b then (b, (j + k)%nat) :: m' else (b, j) :: mono_add_atom a k m'
   end.
 Definition mono_mul (m1 m2 : mono) : mono := fold_left (fun acc ak => mono_add_atom (fst ak) (snd ak) acc) m2 m1.
 
-Fixpoint mono_get (a : expr) (m : mono) : Z :=
-  match m with [] => 0%Z | (b, j) :: m' => if expr_eqb a b then j else mono_get a m' end.
-Definition mono_eqb (m1 m2 : mono) : bool :=
-  Nat.eqb (List.length m1) (List.length m2) && forallb (fun ak => Z.eqb (mono_get (fst ak) m2) (snd ak)) m1.
+(* remove one entry (a, k) exactly *)
+Fixpoint mono_remove (a : expr) (k : nat) (m : mono) : option mono :=
+  match m with
+  | [] => None
+  | (b, j) :: m' => if expr_eqb a b && Nat.eqb k j then Some m'
+                    else match mono_remove a k m' with Some r => Some ((b, j) :: r) | None => None end
+  end.
+Fixpoint mono_eqb (m1 m2 : mono) : bool :=
+  match m1 with
+  | [] => match m2 with [] => true | _ => false end
+  | (a, k) :: m1' => match mono_remove a k m2 with Some m2' => mono_eqb m1' m2' | None => false end
+  end.
 
 Fixpoint poly_add_term (m : mono) (c : Q) (p : poly) : poly :=
   match p with
@@ -64,7 +72,7 @@ Definition poly_mul (p q : poly) : poly :=
                fold_left (fun acc' nd => poly_add_term (mono_mul (fst mc) (fst nd)) (Qred (snd mc * snd nd)) acc') q acc)
             p [].
 Definition poly_const (c : Q) : poly := [([], c)].
-Definition poly_atom (a : expr) (k : Z) : poly := [([(a, k)], 1)].
+Definition poly_atom (a : expr) : poly := [([(a, 1%nat)], 1)].
 Definition poly_clean (p : poly) : poly := filter (fun mc => negb (Z.eqb (Qnum (snd mc)) 0)) p.
 
 Fixpoint poly_pow (p : poly) (n : nat) : poly :=
@@ -73,7 +81,7 @@ Fixpoint poly_pow (p : poly) (n : nat) : poly :=
 Definition q_int (q : Q) : option Z :=
   let r := Qred q in if Pos.eqb (Qden r) 1 then Some (Qnum r) else None.
 
-(* a cleaned polynomial that is a single constant *)
+(* a polynomial that, once cleaned, is a single constant *)
 Definition poly_is_const (p : poly) : option Q :=
   match poly_clean p with
   | [] => Some 0
@@ -84,41 +92,32 @@ Definition poly_is_const (p : poly) : option Q :=
 Fixpoint normalize (e : expr) : poly :=
   match e with
   | ENum q => poly_const (Qred q)
-  | ESym _ => poly_atom e 1
-  | EOp OAdd args => fold_left (fun acc a => poly_add acc (normalize a)) args []
-  | EOp OMul args => fold_left (fun acc a => poly_mul acc (normalize a)) args (poly_const 1)
+  | ESym _ => poly_atom e
+  | EOp OAdd args => fold_right (fun a acc => poly_add (normalize a) acc) [] args
+  | EOp OMul args => fold_right (fun a acc => poly_mul (normalize a) acc) (poly_const 1) args
   | EOp OSub [a; b] => poly_add (normalize a) (poly_scale (-1) (normalize b))
   | EOp ONeg [a] => poly_scale (-1) (normalize a)
   | EOp ODiv [a; b] =>
       match poly_is_const (normalize b) with
-      | Some c => if Z.eqb (Qnum c) 0 then poly_atom e 1 else poly_scale (/ c) (normalize a)
-      | None =>
-          match poly_clean (normalize b) with
-          | [(m, c)] => (* division by a single monomial *)
-              poly_mul (normalize a) [(map (fun ak => (fst ak, (- snd ak)%Z)) m, Qred (/ c))]
-          | _ => poly_mul (normalize a) (poly_atom b (-1))
-          end
+      | Some c => if Z.eqb (Qnum c) 0 then poly_atom e else poly_scale (/ c) (normalize a)
+      | None => poly_atom e
       end
   | EOp OPow [a; b] =>
       match poly_is_const (normalize b) with
       | Some c =>
           match q_int c with
-          | Some z =>
-              if Z.leb 0 z && Z.leb z 12 then poly_pow (normalize a) (Z.to_nat z)
-              else match poly_clean (normalize a) with
-                   | [(m, c1)] => if Qeq_bool c1 1 then [(map (fun ak => (fst ak, (snd ak * z)%Z)) m, 1)] else poly_atom e 1
-                   | _ => poly_atom e 1
-                   end
-          | None => poly_atom e 1
+          | Some z => if Z.leb 0 z && Z.leb z 12 then poly_pow (normalize a) (Z.to_nat z) else poly_atom e
+          | None => poly_atom e
           end
-      | None => poly_atom e 1
+      | None => poly_atom e
       end
-  | _ => poly_atom e 1
+  | _ => poly_atom e
   end.
 
+Definition difference (l r : expr) : poly := poly_clean (poly_add (normalize l) (poly_scale (-1) (normalize r))).
+
 Definition statusE (l r : expr) : cstatus :=
-  let d := poly_clean (poly_add (normalize l) (poly_scale (-1) (normalize r))) in
-  match d with
+  match difference l r with
   | [] => CSatisfied
   | [([], c)] => match q_int c with Some _ => CViolated | None => CInconclusive end
   | _ => CInconclusive
